@@ -98,6 +98,38 @@ def check_file(args):
     return res
 
 
+def cross_job(n):
+    """the same class id looked up and parsed on every connectivity in turn (and in reverse), in one process: each result must still be its own line's circuit"""
+    import htstabilizer.circuit_lookup as cl
+    conns = [c for m, c in docs.ADVERTISED if m == n]
+    texts = {}
+    for n2, c, p in adapt.data_files("stabilizer"):
+        if n2 == n and c in conns:
+            texts[c] = [l for l in adapt.read_lines(p) if l]
+    out = []
+    for k in range(docs.CLASS_COUNT[n]):
+        for order in (conns, list(reversed(conns))):
+            for c in order:
+                info = cl.stabilizer_circuit_lookup(n, c, k)
+                got = adapt.gates_of(info.parse_circuit())
+                want, _ = adapt.read_tokens(texts[c][k].split(":")[3])
+                if got != want or (info.cost, info.depth) != (int(texts[c][k].split(":")[1]), int(texts[c][k].split(":")[2])):
+                    out.append((n, c, k))
+    return n, docs.CLASS_COUNT[n] * len(conns) * 2, out
+
+
+def cross_table_order(ctx):
+    fam = ctx.family("C17.lookup.order_independent", GROUND, "native", "looking the same class up on every connectivity in turn yields each table's own entry")
+    fam.exhaustive = True
+    fam.domain = "every class id x every connectivity of its qubit count, both orders, one process per qubit count"
+    for n, tot, bad in core.pmap(cross_job, [2, 3, 4, 5, 6], chunks=1):
+        ctx.record(fam, PROVED, {"n": n, "lookups": tot}, n=tot - len(bad))
+        for (n_, c, k) in bad[:20]:
+            ctx.record(fam, REFUTED, {"n": n_, "connectivity": c, "class_id": k})
+            ctx.violate(fam, f"cross:{n_}:{c}:{k}", f"stabilizer_circuit_lookup({n_},{c!r},{k}).parse_circuit() after looking the class up on another connectivity is not line {k} of stabilizer{n_}-{c}.txt",
+                        {"file": f"stabilizer{n_}-{c}.txt", "line": k, "n": n_, "connectivity": c})
+
+
 DESC = {
     "C17.lines": "exactly K_n non-empty lines per table (K = 2,5,18,93,760)",
     "C17.format": "line has four ':' fields, first three integers",
@@ -129,6 +161,10 @@ def run(ctx: core.Ctx):
         ctx.record(fam, PROVED if ok else REFUTED, {"config": list(c)})
         if not ok:
             ctx.violate(fam, f"missing-table:{c}", f"no table file for advertised configuration {c}", {"config": list(c)})
+    from .. import symrun
+    symrun.purity(ctx, (cl.StabilizerCircuitInfo.__init__, cl.StabilizerCircuitInfo.parse_circuit, cl.parse_circuit, cl.stabilizer_circuit_lookup, cl.mub_circuit_lookup,
+                        cl.MUBInfo.__init__, cl.MUBInfo.copy), "C17.frame.no_module_state", allow=("stabilizer_file_cache", "mub_file_cache"))
+    cross_table_order(ctx)
     t = time.time()
     results = core.pmap(check_file, files, chunks=1)
     dt = time.time() - t
